@@ -24,6 +24,9 @@
         `store.put`        put with time-to-live: `now + ttl` is representable at the worker's clock;
         `kw.update`        charged id: `new - charged` and `used + (new - charged)` are in `i64` range,
                            with `used` and `charged` as they are WHEN THIS ACTION RUNS;
+        `wu.space`         (the three calls of `is_space_available_for` inside a put: `space0`, `evSpace`, `emptySpace`)
+                           `max_weight - weight_used` is in `i64` range (`Adm.spaceOverflow = false`), with the total as it
+                           is WHEN THIS ACTION RUNS — the code computes the difference in `i64` and panics otherwise;
     * sweeper, consumer, clock: none.
 
   What is proved
@@ -41,6 +44,13 @@
                                        (`C17_layerB_counterexample_*`, the Layer B counterparts of the five Layer A ones);
     * `C17_layerB_run_no_panic`        along any run in which every action meets `Act.pre` in the state it runs in,
                                        no caller ever gets a panic and the worker never dies;
+    * `C17_layerB_space_overflow_needs_negative_total`, `C17_layerB_space_overflow_only_after_shutdown`
+                                       the `wu.space` clause holds whenever the total is not negative (total and limit
+                                       being `i64`s, the limit not negative) — hence at every reachable state of every
+                                       interleaving while `shutdown()` has not been called (`C01_layerB_nonneg`): a worker
+                                       that dies at `wu.space` has met a NEGATIVE total, which only known finding D10
+                                       produces; `C17_layerB_counterexample_space_overflow` is that run
+                                       (`corpus/C17_D10_space_overflow.in`, replayed on the crate);
     * `C17_layerB_background_never_panics`, `C17_layerB_background_exit_only_on_shutdown`
                                        the sweeper's and the consumer's actions have no panic site (the consumer given
                                        a well-formed sketch), at every state of every interleaving; they exit only
@@ -1044,6 +1054,85 @@ theorem C17_layerB_counterexample_worker_weight_overflow :
   simp only [Bool.and_eq_true, decide_eq_true_eq] at hq
   obtain ⟨b', o', hs, hq'⟩ := checkStep_sound hq.2
   exact ⟨b, b', o', hv, hq.1.1, hq.1.2, hs, of_decide_eq_true hq'⟩
+
+/-- **The `wu.space` clause needs a NEGATIVE total.**  `is_space_available_for` computes `max_weight - weight_used` in `i64`.
+    With the total not negative — total and limit being `i64`s (they are: `Weight = i64`), the limit not negative (Layer G:
+    `0 < total_cache_weight`) — the difference lies in `[-i64::MAX, i64::MAX]`: the side condition of the three `wu.space`
+    positions holds, and a worker standing at one of them survives its action, in EVERY state `b` (no invariant, any
+    interleaving before and after).  So the panic of `cache_weight.rs:222` is reachable only from a state whose total is
+    below zero. -/
+theorem C17_layerB_space_overflow_needs_negative_total {b : BState} (h0 : 0 ≤ b.g.adm.used)
+    (hu : b.g.adm.used ≤ i64Max) (hm0 : 0 ≤ b.g.adm.max) (hm : b.g.adm.max ≤ i64Max) :
+    b.g.adm.spaceOverflow = false ∧
+    (∀ c, WPc.pre b.g (.space0 c)) ∧ (∀ c e s, WPc.pre b.g (.evSpace c e s)) ∧ (∀ c, WPc.pre b.g (.emptySpace c)) ∧
+    (((∃ c, b.w = .space0 c) ∨ (∃ c e s, b.w = .evSpace c e s) ∨ (∃ c, b.w = .emptySpace c)) →
+      Act.pre b .worker ∧ ∀ b' o o', stepB b .worker o = .ok (b', o') → b'.w ≠ .dead ∧ b'.g.worker = b.g.worker) := by
+  have hno : b.g.adm.spaceOverflow = false := Adm.spaceOverflow_false h0 hu hm0 hm
+  refine ⟨hno, fun _ => hno, fun _ _ _ => hno, fun _ => hno, ?_⟩
+  intro hpos
+  refine ⟨?_, ?_⟩
+  · show b.w.pre b.g
+    rcases hpos with ⟨c, hw⟩ | ⟨c, e, s, hw⟩ | ⟨c, hw⟩ <;> (rw [hw]; exact hno)
+  · intro b' o o' hs
+    rcases workerAct_wuSpace hpos (show workerAct b o = .ok (b', o') from hs) with ⟨_, h1, h2⟩ | ⟨h1, _⟩
+    · exact ⟨h1, h2⟩
+    · rw [hno] at h1; cases h1
+
+/-- … and conversely: under an `i64` limit that is not negative, a total that is an `i64` and makes the subtraction
+    overflow IS negative (and then the enabled worker at a `wu.space` position dies: `C17_layerB_pre_necessary`). -/
+theorem C17_layerB_space_overflow_total_negative {b : BState} (hov : b.g.adm.spaceOverflow = true)
+    (hu : b.g.adm.used ≤ i64Max) (hm0 : 0 ≤ b.g.adm.max) (hm : b.g.adm.max ≤ i64Max) : b.g.adm.used < 0 :=
+  Adm.neg_of_spaceOverflow hov hu hm0 hm
+
+/-- **While `shutdown()` has not been called the `wu.space` clause holds at every reachable state of every interleaving**
+    (configured limit a non-negative `i64`, total an `i64`): the total is never negative there (`C01_layerB_nonneg`: the
+    accounting identity, which `shutdown()` voids — known finding D10, `layerB_negative_after_shutdown`).  A worker death
+    at `wu.space` is therefore a CONSEQUENCE of D10 and of nothing else. -/
+theorem C17_layerB_space_overflow_only_after_shutdown {cfg : Cfg} {now : Nat} {seeds : List Nat} {clients : Nat}
+    {b : BState} (hr : Reach cfg now seeds clients b) (hc0 : 0 ≤ cfg.maxWeight) (hcI : cfg.maxWeight ≤ i64Max)
+    (hu : b.g.adm.used ≤ i64Max) :
+    (b.g.shutting = false → b.g.adm.spaceOverflow = false) ∧
+    (b.g.adm.spaceOverflow = true → b.g.shutting = true ∧ b.g.adm.used < 0) := by
+  have hmx : b.g.adm.max = cfg.maxWeight := by rw [(binv_reach hr).maxFixed, reach_cfg hr]
+  have hno : b.g.shutting = false → b.g.adm.spaceOverflow = false := fun hrun =>
+    Adm.spaceOverflow_false (C01_layerB_nonneg hr hrun) hu (by rw [hmx]; exact hc0) (by rw [hmx]; exact hcI)
+  refine ⟨hno, fun hov => ⟨?_, Adm.neg_of_spaceOverflow hov hu (by rw [hmx]; exact hc0) (by rw [hmx]; exact hcI)⟩⟩
+  cases hsh : b.g.shutting with
+  | true => rfl
+  | false => rw [hno hsh] at hov; cases hov
+
+/-- the schedule of `corpus/C17_D10_space_overflow.in`, first case (replayed action by action on the crate), up to the
+    worker's first `wu.space` of the second put: limit `i64::MAX`; key 1 put with weight 3 and stored; `delete(1)` executed
+    up to just before its `wu.sub`; `put_with_weight(2, 1)` queued; `shutdown()` run to its end by the other client (it
+    zeroes `weight_used`); the worker finishes the delete (total −3) and takes the put up to `wu.space` -/
+def spaceOverflowPrefix : List (Act × Oracle) :=
+  acts (putActs 0 1 100 3 none ++ List.replicate 6 .worker ++
+    .issue 0 (.delete 1) :: List.replicate 3 (.client 0) ++ List.replicate 3 .worker ++
+    putActs 0 2 101 1 none ++
+    .issue 1 .shutdown :: List.replicate 12 (.client 1) ++ List.replicate 3 .worker)
+
+/-- **`wu.space`, the `i64` subtraction** (the consequence of known finding D10; `cache_weight.rs:222`).  Every action of
+    the prefix meets `Act.pre`; then the worker stands at the first `wu.space` of `put_with_weight(2, 1)` with the total at
+    −3 under the limit `i64::MAX`, `shutdown()` having returned: `i64::MAX − (−3)` is not an `i64`, the side condition
+    fails, and the worker's action kills it — the put's acknowledgement stays pending for ever, the total stays −3. -/
+theorem C17_layerB_counterexample_space_overflow :
+    ∃ b b' o', ValidRunB (c17BBig 2) spaceOverflowPrefix b ∧
+      (b.w matches .space0 _) = true ∧ b.g.adm.max = i64Max ∧ b.g.adm.used = -3 ∧ b.g.shutting = true ∧
+      b.g.adm.spaceOverflow = true ∧ ¬ Act.pre b .worker ∧
+      stepB b .worker {} = .ok (b', o') ∧ b'.w = .dead ∧ b'.g.worker = .dead ∧ b'.g.adm.used = -3 ∧
+      b'.g.acks = [.accepted, .accepted, .pending] ∧ b'.g.store = [] ∧ PanicFree b' := by
+  have h : checkRun (c17BBig 2) spaceOverflowPrefix
+      (fun b => decide ((b.w matches .space0 _) = true ∧ b.g.adm.max = i64Max ∧ b.g.adm.used = -3 ∧
+          b.g.shutting = true ∧ b.g.adm.spaceOverflow = true ∧ ¬ Act.pre b .worker) &&
+        checkStep b .worker {} (fun b' => decide (b'.w = .dead ∧ b'.g.worker = .dead ∧ b'.g.adm.used = -3 ∧
+          b'.g.acks = [.accepted, .accepted, .pending] ∧ b'.g.store = [] ∧ PanicFree b'))) = true := by
+    decide +kernel
+  obtain ⟨b, hv, hq⟩ := checkRun_sound h
+  simp only [Bool.and_eq_true, decide_eq_true_eq] at hq
+  obtain ⟨b', o', hs, hq'⟩ := checkStep_sound hq.2
+  obtain ⟨h1, h2, h3, h4, h5, h6⟩ := hq.1
+  obtain ⟨g1, g2, g3, g4, g5, g6⟩ := of_decide_eq_true hq'
+  exact ⟨b, b', o', hv, h1, h2, h3, h4, h5, h6, hs, g1, g2, g3, g4, g5, g6⟩
 
 /-- **The documented preconditions.**
     (1) `put_with_weight(1, 10, 0)`: the request is not well formed (`Act.pre` fails at `issue`), and the first action of
